@@ -91,6 +91,7 @@ fn run_tokens(toks: &[&str]) -> String {
         "REALNOW" => chan_time::realnow(args),
         "SCHED" => chan_now::sched(args),
         "SCHEDX" => chan_now::schedx(args),
+        "SCHEDR" => chan_now::schedr(args),
         "SCHEDT" => chan_now::schedt(args),
         "STRESS" => chan_now::stress(args),
         "VALIDATE" => chan_ops::validate(args),
@@ -111,6 +112,7 @@ fn run_tokens(toks: &[&str]) -> String {
         "ADMDEC" => chan_adm::admdec(args),
         "SRB" => chan_adm::srb(args),
         "CORR" => chan_corrupt::corr(args),
+        "REENC" => chan_corrupt::reenc(args),
         "JSON" => chan_json::json(args),
         "JSONX" => chan_json::json(args), // megabyte-sized bundles: implementation only (the model answers NA), judged by the oracle
         "JTOK" => chan_json::jtok(args),
